@@ -2,6 +2,7 @@
 known findings, reports, evidence."""
 import json
 import os
+import re
 import time
 
 import facts as factsmod
@@ -68,6 +69,26 @@ class Ctx:
             return oid
 
 
+_MODPFX = re.compile(r"(?<![A-Za-z0-9_])(?:(?:r#)?[a-z_][a-z0-9_]*::)+(?=[A-Za-z_<\[])")
+_GENARGS = re.compile(r"(?<=[A-Za-z0-9_])<[^<>]*>")
+
+
+def norm_fn(path):
+    """Identity of a function that survives moving it to another module and renaming type/lifetime parameters:
+    module prefixes (lower-case path segments) and generic argument lists of types are dropped.
+       collection::owned::<impl lockable::RawLock for collection::OwnedLockCollection<L>>::raw_read
+    -> <impl RawLock for OwnedLockCollection>::raw_read"""
+    if not isinstance(path, str):
+        return path
+    s = path
+    prev = None
+    while prev != s:
+        prev = s
+        s = _GENARGS.sub("", s)
+    s = _MODPFX.sub("", s)
+    return s
+
+
 class Violation:
     def __init__(self, rule, fn, site, msg, file=None, line=None, detail=None):
         self.rule = rule
@@ -80,7 +101,7 @@ class Violation:
 
     @property
     def key(self):
-        return "%s | %s | %s" % (self.rule, self.fn, self.site)
+        return "%s | %s | %s" % (self.rule, norm_fn(self.fn), self.site)
 
     def to_json(self):
         return {"rule": self.rule, "key": self.key, "function": self.fn, "site": self.site, "message": self.msg,
